@@ -115,6 +115,7 @@ type World struct {
 	// that return a value of exactly that interface type; Providers counts them.
 	ProvideIfaceInputs bool
 	Providers          int
+	genArgs map[int]argmapper.Arg // ConverterGen options by generator id, created once per world
 	// TargetDefaults: further default options given to NewFunc when Setup
 	// creates the target (e.g. Redefine filters supplied as defaults).
 	TargetDefaults []argmapper.Arg
@@ -580,7 +581,19 @@ func (w *World) Args(sc *Scenario) ([]argmapper.Arg, error) {
 		args = append(args, argmapper.Converter(raw...))
 	}
 	for i := range sc.Gens {
-		args = append(args, argmapper.ConverterGen(w.MakeGen(&sc.Gens[i])))
+		// the SAME option object is handed to every call of this world (a
+		// program keeps its option list around)
+		w.mu.Lock()
+		ga, ok := w.genArgs[sc.Gens[i].ID]
+		if !ok {
+			if w.genArgs == nil {
+				w.genArgs = map[int]argmapper.Arg{}
+			}
+			ga = argmapper.ConverterGen(w.MakeGen(&sc.Gens[i]))
+			w.genArgs[sc.Gens[i].ID] = ga
+		}
+		w.mu.Unlock()
+		args = append(args, ga)
 	}
 	args = append(args, Quiet())
 	// malformed options are inserted at their positions (clamped)
@@ -612,6 +625,15 @@ func (w *World) Args(sc *Scenario) ([]argmapper.Arg, error) {
 			a = argmapper.Converter("x")
 		case "nilconvfunc":
 			a = argmapper.ConverterFunc(nil)
+		case "nilfuncptrconv":
+			// a non-function converter that happens to be a typed nil *Func
+			// (an optional converter variable that was never set)
+			a = argmapper.Converter((*argmapper.Func)(nil))
+		case "structconv":
+			a = argmapper.Converter(struct{ A int }{1})
+		case "ptrconv":
+			x := 5
+			a = argmapper.Converter(&x)
 		default:
 			panic("bad malformed kind " + m.Kind)
 		}
@@ -639,6 +661,16 @@ func (w *World) MakeGen(gs *GenSpec) argmapper.ConverterGenFunc {
 			return nil, nil
 		case "err":
 			return nil, &GenErr{Gen: gs.ID}
+		case "odd":
+			// value-dependent: a converter only for values that are there and
+			// carry an odd token
+			if ob := Observe(v.Value); !ob.Valid || ob.Tok%2 == 0 {
+				return nil, nil
+			}
+		case "emit":
+			fs := *gs.Emit
+			fs.ID = GenFuncID(gs.ID, n)
+			return w.Realize(&fs)
 		}
 		fs := &FuncSpec{
 			ID:      GenFuncID(gs.ID, n),
